@@ -379,6 +379,7 @@ class SetModel:
 
     def __init__(self, kind):
         self.kind = kind
+        self.replay_id = {"cls": "SetModel", "kind": kind}
         self.alg = SIG_ALG[scen.key(kind)["kty"]]
         self.ealg = ENC_ALG[scen.key(kind)["kty"]] if not kind.startswith("Ed") else None
 
@@ -494,6 +495,10 @@ class SetModel:
 
     def check(self, hist, op, obs, st):
         return [viol(f"shared key set: {w} [{self.alg}]", f"history {list(hist) + [op]}: {d}") for w, d in obs["viol"]]
+
+
+def make_model(desc):
+    return SetModel(desc["kind"])
 
 
 def set_histories(tier):
